@@ -63,6 +63,10 @@ def make_csys(sysname):
         return qobj.csys("qutrit")
     if sysname == "2qubit":
         return qobj.csys("qubit", names=(0, 1))
+    if sysname == "qubit_qutrit":
+        return qobj.csys(["qubit", "qutrit"], names=(0, 1))
+    if sysname == "qutrit_qubit":
+        return qobj.csys(["qutrit", "qubit"], names=(0, 1))
     raise ValueError(sysname)
 
 
@@ -217,6 +221,29 @@ def true_objects(g, c_sys, kind, m=2, classes=("interior", "boundary", "pure"), 
         else:
             raise ValueError(kind)
     return out
+
+
+def strided(v):
+    """the same 1-D values as a non-contiguous view"""
+    w = np.empty(2 * len(v), dtype=np.float64)
+    w[::2] = v
+    return w[::2]
+
+
+def layout_variant(t, c_sys, flag):
+    """the SAME object (same values) handed over in another memory layout: Fortran-ordered / transposed-view matrices
+    for gates and measurement processes, strided views for state / POVM vectors"""
+    kw = dict(on_para_eq_constraint=flag)
+    o = t.obj
+    if t.kind == "qst":
+        obj = State(c_sys, strided(np.array(o.vec)), **kw)
+    elif t.kind == "povmt":
+        obj = Povm(c_sys, [strided(np.array(v)) for v in o.vecs], **kw)
+    elif t.kind == "qpt":
+        obj = Gate(c_sys, np.asfortranarray(np.array(o.hs)), **kw)
+    else:
+        obj = MProcess(c_sys, [np.array(h).T.copy().T for h in o.hss], **kw)
+    return TrueObj(t.kind, t.label + "/layout", obj, rho=t.rho, elems=t.elems, groups=t.groups)
 
 
 def edge_objects(c_sys, kind, m=2, flag=True):
